@@ -107,4 +107,6 @@ def run(ctx):
         visit(fn.body, [], fname)
     if n_sites < 1:
         raise FactError('skoolkit/snactl.py: no computed-address marker site found')
+    from sa.rules import memo
+    memo.run_for(ctx, repo, 'C14')
     return report.finish(ctx, EXPLANATION)
